@@ -20,7 +20,10 @@ META = {
             "feed/read(size,timeout)/empty/close on one real BufferedPipe; the history of call results must be "
             "linearizable w.r.t. a sequential FIFO (read returns a non-empty prefix; b'' only when closed and "
             "drained; PipeTimeout only when empty and not before its deadline); no reader stays blocked with "
-            "data buffered or the pipe closed; the attached Event agrees with (data or closed) at the end.",
+            "data buffered or the pipe closed; the attached Event agrees with (data or closed) at the end. Plus [poll "
+            "then block] a non-blocking poll that timed out followed by a blocking read (same thread or another) "
+            "against a producer / closer; plus [opcode] reader || producer programs with read() preemptible between "
+            "any two bytecode instructions (preemption bound 1 quick / 2 thorough), same oracle.",
     "note": "atomicity = source line of buffered_pipe.py; virtual clock; PipeTimeout racing a feed is judged by "
             "linearizability (legal if the buffer was empty at some point of the call at/after the deadline)",
     "design_ref": "4/C26",
@@ -41,7 +44,7 @@ def payload(tid, k, tag):
 
 
 def make_body(scn):
-    init, with_event, progs = scn
+    init, with_event, progs = scn[:3]
 
     def body(s):
         pipe = BufferedPipe()
@@ -241,7 +244,36 @@ def scenarios(tier):
     return out
 
 
+POLLS = [("read", 1, 0.0), ("read", 10, 0.0)]
+BLOCKING = [("read", 1, None), ("read", 10, 5.0)]
+
+
+def more_scenarios(tier):
+    """[poll then block] state left behind by an earlier non-blocking poll (PipeTimeout on an empty pipe) must not
+    change what a later blocking read does: the poll and the blocking read in one thread or in two, a producer /
+    closer in another.  [opcode] the same small programs with read() preemptible between any two bytecode
+    instructions (scn[3] == "op"): checks that are unlocked or span one source line."""
+    out = []
+    for a in POLLS:
+        for b in BLOCKING:
+            for c in (FEED_A, ("close",)):
+                out.append((0, True, ((a, b), (c,))))
+                out.append((0, False, ((a,), (b,), (c,))))
+    rds = [("read", 1, None), ("read", 1, 0.0), ("read", 10, 5.0)]
+    prods = [(FEED_A, ("close",)), (FEED_A,), (("close",),), (FEED_BC, ("empty",))]
+    for init in ((0,) if tier == "quick" else (0, 1)):
+        for a in rds:
+            for pr in prods:
+                out.append((init, False, ((a,), pr), "op"))
+    if tier != "quick":
+        for a, b in itertools.combinations_with_replacement(rds, 2):
+            out.append((0, False, ((a,), (b,), (FEED_A, ("close",))), "op"))
+    return out
+
+
 def bound_for(tier, scn):
+    if len(scn) > 3:
+        return 1 if tier == "quick" or len(scn[2]) > 2 else 2
     if tier == "quick":
         return 2 if len(scn[2]) == 2 else 1
     nops = sum(len(p) for p in scn[2])
@@ -256,6 +288,8 @@ def run_scn(item, acc):
     body = make_body(scn)
     bound = bound_for(tier, scn)
     kw = {"trace_files": TRACE, "timer_dev": True}
+    if len(scn) > 3:
+        kw["opcode_funcs"] = {"read"}
     outcomes = set()
 
     def on_exec(ex):
@@ -288,6 +322,8 @@ def run_scn(item, acc):
 
     res = explore.explore(body, bound, "preempt", cap=CAP, on_exec=on_exec, sched_kw=kw)
     acc.count("schedules", res.executions)
+    if len(scn) > 3:
+        acc.count("opcode_granular_schedules", res.executions)
     acc.count("scenarios")
     acc.cmax("max_bound", bound)
     acc.count("distinct_observable_histories", len(outcomes))
@@ -307,7 +343,7 @@ def main(tier):
                     ["atomicity granularity = source line in buffered_pipe.py", "virtual clock",
                      "linearizability oracle: PipeTimeout concurrent with a feed is legal if the buffer was "
                      "empty at some point of the call at/after the deadline"])
-    items = [(tier, s) for s in scenarios(tier)]
+    items = [(tier, s) for s in scenarios(tier) + more_scenarios(tier)]
     ck.extra["scenarios"] = len(items)
     ck.merge(core.pmap(items, run_scn))
     if any("cap of" in n for n in ck.acc.notes):
@@ -318,9 +354,11 @@ def main(tier):
 def replay(rec):
     r = rec["replay"]
     scn = r["scn"]
-    scn = (scn[0], scn[1], tuple(tuple(tuple(op) for op in p) for p in scn[2]))
-    ex = explore.replay(make_body(scn), r["choices"], "preempt",
-                        {"trace_files": TRACE, "timer_dev": True, "record_trace": True})
+    scn = (scn[0], scn[1], tuple(tuple(tuple(op) for op in p) for p in scn[2])) + tuple(scn[3:])
+    kw = {"trace_files": TRACE, "timer_dev": True, "record_trace": True}
+    if len(scn) > 3:
+        kw["opcode_funcs"] = {"read"}
+    ex = explore.replay(make_body(scn), r["choices"], "preempt", kw)
     for t in ex.trace[-80:]:
         print(t)
     print("outcome", ex.outcome, ex.error)
